@@ -89,11 +89,12 @@ class Prop(BaseProp):
     LEVEL = "exploration"
     RULE = ("ct_add_test/ct_add_section/add_test with NAME at every argument position, EXPECTFAIL present/absent at "
             "any position, 0-6 further arguments from a hostile pool (arguments equal to the test name, keywords as "
-            "substrings, quoted/bracketed keyword look-alikes), tests with sections nested to depth 3 implemented by "
+            "substrings, quoted/bracketed keyword look-alikes; 20% of the add_test commands with parenthesised groups before/after NAME, the group itself accepted shown or dropped), tests with sections nested to depth 3 implemented by "
             "function or macro, documented or not. Distinct = (kinds, NAME positions, flags); non-trivial = at least "
             "one test entry")
     ASSUMPTIONS = ["keywords in upper case; no argument equals a keyword case-insensitively unless it is that keyword",
-                   "exactly one NAME keyword per command", "declarations are immediately followed by their definition"]
+                   "exactly one NAME keyword per command", "declarations are immediately followed by their definition",
+                   "whether an add_test signature shows a parenthesised group is not asserted (shown in place or dropped are both accepted)"]
     HEADLINE = ["ctest_checked", "cmaketest_checked", "args_equal_to_name", "sections_checked"]
 
     def n_cases(self, tier):
